@@ -188,6 +188,22 @@ def content():
         for src, needle in (('10 A$="a  b   c "\n', '"a  b   c "'), ("10 DATA  x  y ,2\n", "x  y "), ("10 REM  two  blanks\n", "  two  blanks"), ("10 'c  d\n", "c  d")):
             got = convert_or_refusal(src)
             res.append(ob("content/%s" % src.strip(), got[0] == "ok" and needle in got[1], "contains %r" % needle, got[1]))
+        # blanks that are content stay content wherever the line stands: last line of the text (with every file ending) or not
+        for stmt in ("DATA X  ", "DATA  a b  ,c  ", "REM X  ", "'tail   ", 'A$="HI  ', "PRINT \"a  \""):
+            first = convert_or_refusal("10 %s\n20 END\n" % stmt)
+            want = first[1].split("\n")[0] if first[0] == "ok" else first
+            bad = []
+            for ending in ("", "\n", "\n\n", "\r", "\r\n"):
+                got = convert_or_refusal("5 END\n10 %s%s" % (stmt, ending))
+                line = ([l for l in got[1].split("\n") if l.startswith("10 ")] or [got[1]])[0] if got[0] == "ok" else got
+                if line != want:
+                    bad.append(dict(ending=ending, as_last_line=line, followed_by_a_line=want))
+            res.append(ob("content/last line keeps its blanks/%s" % stmt.strip(), not bad, "same translation as when another line follows", bad[:2] or "same for 5 file endings"))
+        # signs of a numeral may be separated by blanks like everything else
+        for tmpl in ("A=-{_}-5", "A=-{_}+5", "A=-{_}-{_}5", "A=B*-{_}-5", "FOR I=1 TO 9 STEP -{_}-1", "DATA -{_}-5"):
+            results = {b: convert_or_refusal("10 %s\n" % tmpl.replace("{_}", b)) for b in ("", " ", "  ")}
+            ok = len({r for r in results.values()}) == 1
+            res.append(ob("content/sign runs/%s" % tmpl.replace("{_}", ""), ok, "all spellings refused, or all converted to identical text", {repr(k): (v[0], v[1][:80]) for k, v in results.items()} if not ok else "identical"))
         return res
     return guarded("content", run)
 
